@@ -83,6 +83,34 @@ def check(ctx):
     ctx.undecided("distributional exactness", "that tau2 has no other children in a user's "
                   "model (the kernel is built for DistRegBuilder models)")
 
+    # ------------------------------------------------------------------ R4 the pipeline
+    ctx.rule("R4", "the distributional-regression pipeline hands the engine, for every "
+                   "group with a smoothing variance, the kernel the verified factory builds "
+                   "for THAT group; no kernel closure reads a loop variable by reference.")
+    from .common import late_binding_obligations
+    dm = repo.func(f"{DR}.dist_reg_mcmc")
+    rdm = evaluate(repo, dm)
+    adds = [(t, pcs) for t, _nd, pcs in rdm.calls
+            if t[1][0] == "a" and t[1][2] == "add_kernel" and t[2]]
+    tau_adds = [(t, pcs) for t, pcs in adds if "'tau2'" in str(pcs) or "tau2" in pretty(t[2][0])]
+    ok_tau = False
+    detail = "no add_kernel call for the smoothing variances"
+    for t, pcs in tau_adds:
+        k = t[2][0]
+        if is_call(k, f"{DR}.tau2_gibbs_kernel") and len(k[2]) == 1 and k[2][0][0] == "iter":
+            grp_it = k[2][0]
+            ok_tau = any(p[0] == ("cmp", "in", c("tau2"), grp_it) and p[1] for p in pcs)
+            detail = f"{short(k)} under {pcs}"
+        else:
+            ok_tau = False
+            detail = f"add_kernel receives {short(k, 200)}"
+            break
+    ctx.ob("C13.R4", dm, "every group that has a tau2 gets tau2_gibbs_kernel(<that group>) "
+                         "-- the factory whose closure R1 verifies", ok_tau and len(tau_adds) == 1,
+           unproven=True, detail=detail, stmt="tau2 kernels of the pipeline")
+    late_binding_obligations(ctx, "C13.R4", [DR, "liesel.model.goose"],
+                             "Gibbs kernels of the model package")
+
     # ------------------------------------------------------------------ R1 kernel side
     tk = repo.func(f"{DR}.tau2_gibbs_kernel")
     rk = evaluate(repo, tk)
